@@ -144,7 +144,7 @@ def rasterise(notes, time_div, onset_only=False, note_separation=False, pitch_ma
         else:
             e = max(a + 1, b - (1 if note_separation else 0))
         r = int(p) + shift
-        idx.append((r, a, e if not onset_only else b, int(p)))
+        idx.append((r, a, e, int(p)))
         if not 0 <= r < rows:
             R.hidden += 1
             continue
